@@ -183,7 +183,8 @@ impl FsCommand {
     }
 
     fn check_can_rename(source: &Path, target: &Path) -> io::Result<()> {
-        if target.to_path_buf().exists() {
+        // `exists()` follows symbolic links and reports a dangling one as absent
+        if fs::symlink_metadata(target.to_path_buf()).is_ok() {
             return Err(io::Error::new(
                 ErrorKind::AlreadyExists,
                 format!(
